@@ -163,19 +163,23 @@ def run_case(ctx, h, tmp):
         # deletion through a reference acts on the instance: whichever way the target is deleted (through the reference
         # value or through the instance found by direct navigation), it leaves its container and nothing in the
         # loaded world refers to it any more
-        if not problems:
+        if not [p for p in problems if (p[2] if len(p) == 3 else 'none') == 'none']:
             cands = [(i, fname, f, n, t, want[n]) for (i, fname), (f, coll, vals) in followed.items()
                      for want in [exp.get((start, i, fname))] if want is not None and len(want) == len(vals)
-                     for n, t in enumerate(vals) if want[n] is not None and want[n][0] != start]
+                     for n, t in enumerate(vals) if want[n] is not None and want[n][0] != start
+                     and unproxy(t) is direct[want[n][0]][want[n][1]]]      # (order findings aside: the value really is that instance)
             if cands:
-                i, fname, f, n, t, (k, j) = rng.choice(cands)
+                # targets that contain other objects make recursive / non-recursive deletion differ: preferred
+                rich = [c for c in cands if len(direct[c[5][0]][c[5][1]].eContents)]
+                i, fname, f, n, t, (k, j) = rng.choice(rich if rich and rng.random() < .7 else cands)
                 d = direct[k][j]
                 was_proxy = hasattr(t, '_proxy_path')
                 how = rng.choice(['through-reference', 'direct-instance'])
                 ctx.count('delete/' + how)
                 everything = [o for kk in direct for o in direct[kk]]
 
-                def holders():
+                def holders(targets=None):
+                    tids = {id(d)} if targets is None else {id(x) for x in targets}
                     out = []
                     for o in everything:
                         if o is d:
@@ -185,19 +189,47 @@ def run_case(ctx, h, tmp):
                             vs = list(v) if g.many else ([v] if v is not None else [])
                             for x in vs:
                                 # a proxy nobody ever followed is a path, not a reference to the instance: not judged
-                                if (x is d) or (getattr(x, 'resolved', False) and getattr(x, '_wrapped', None) is d):
+                                if id(x) in tids or (getattr(x, 'resolved', False) and id(getattr(x, '_wrapped', None)) in tids):
                                     out.append((o, g, x))
                     return out
-                before_holders = holders()
+                rec = rng.random() < .6
+
+                def subtree(x):
+                    out = [x]
+                    for c in x.eContents:
+                        out += subtree(c)
+                    return out
+                gone = {id(x) for x in (subtree(d) if rec else [d])}
+
+                def values():
+                    snap = {}
+                    for o in everything:
+                        if id(o) in gone:
+                            continue
+                        for g in o.eClass.eAllReferences():
+                            v = o.eGet(g)
+                            vs = list(v) if g.many else ([v] if v is not None else [])
+                            snap[(id(o), g.name)] = [('proxy', x._proxy_path, id(x._wrapped) if x.resolved else None)
+                                                     if hasattr(x, '_proxy_path') else ('obj', None, id(x)) for x in vs]
+                    return snap
+
+                def same_value(a, b):
+                    # the same target: the same instance, or the same proxy (which the deletion may have resolved)
+                    if a[0] == 'proxy' and b[0] == 'proxy':
+                        return a[1] == b[1]
+                    return a[2] is not None and a[2] == b[2]
+                before_values = values()
+                before_holders = holders(subtree(d) if rec else [d])      # a recursive delete also deletes the descendants
+                ctx.count('delete/recursive' if rec else 'delete/non-recursive')
                 rehash = lambda hs: bool(hs) and all(g.many and g.unique and hasattr(x, '_proxy_path') for (_o, g, x) in hs)
                 try:
-                    (t if how == 'through-reference' else d).delete()
+                    (t if how == 'through-reference' else d).delete(recursive=rec)
                 except Exception as e:
                     # F-C14-1's root cause (a proxy hashed before it was resolved cannot be found in its ordered set any more)
                     # also makes the removal itself fail
                     risky = [hd for hd in before_holders if hd[1].many and hd[1].unique and hasattr(hd[2], '_proxy_path')]
                     problems.append(('deletion', f'object {i}.{fname}[{n}] deleted ({how}): raised {type(e).__name__}: {str(e)[:60]}',
-                                     'proxy-rehash-after-resolution' if risky and isinstance(e, KeyError) else 'none'))
+                                     'proxy-rehash-after-resolution' if risky and isinstance(e, (KeyError, RuntimeError)) else 'none'))
                     raise StopIteration
                 still = []
                 if d.eContainer() is not None:
@@ -205,8 +237,23 @@ def run_case(ctx, h, tmp):
                 left = holders()
                 for (o, g, x) in left:
                     still.append(f'{o.eClass.name}.{g.name} (many={g.many} unique={g.unique} opp={g.eOpposite is not None} via={type(x).__name__}) still refers to it')
+                collateral = False
+                if not still:
+                    # ... and nothing else changed: every other feature value of every surviving object is what it was,
+                    # minus the deleted objects (with recursive=False that is the target alone)
+                    after_values = values()
+                    for key, was in before_values.items():
+                        want_now = [x for x in was if x[2] not in gone]
+                        now = [x for x in after_values.get(key, []) if x[2] not in gone]
+                        if len(now) != len(want_now) or not all(same_value(a, b) for a, b in zip(want_now, now)):
+                            o_ = next(o for o in everything if id(o) == key[0])
+                            still.append(f'{o_.eClass.name}.{key[1]} of a surviving object changed beyond losing the deleted object'
+                                         f'{"s" if rec else ""} (recursive={rec})')
+                            collateral = True
+                            break
                 if still:
-                    trig = 'proxy-rehash-after-resolution' if (d.eContainer() is None and rehash(left)) else \
+                    risky_before = [hd for hd in before_holders if hd[1].many and hd[1].unique and hasattr(hd[2], '_proxy_path')]
+                    trig = 'proxy-rehash-after-resolution' if (not collateral and (risky_before or (d.eContainer() is None and left and rehash(left)))) else \
                            ('duplicate-in-list-like-reference' if (left and all(g.many and not g.unique for (_o, g, _x) in left)) else 'none')
                     problems.append(('deletion', f'object {i}.{fname}[{n}] deleted ({how}): ' + '; '.join(still[:3]), trig))
     except StopIteration:
